@@ -106,6 +106,12 @@ Definition check_private (ps : list pvar) : bool := forallb (fun p => pclass_ok 
 
 Definition check_region (r : region) : bool := check_shared (r_shared r) && check_private (r_private r).
 
+(* ------------------------------------------------------------------ keys of the generic model
+   (Par_Model) when it is instantiated for a region: (variable, two indices) *)
+Definition key := (string * (Z * Z))%type.
+Definition key_eqb (x y : key) : bool :=
+  String.eqb (fst x) (fst y) && (fst (snd x) =? fst (snd y)) && (snd (snd x) =? snd (snd y)).
+
 (* ------------------------------------------------------------------ witness search (small sizes) *)
 Definition zrange (n : nat) : list Z := map Z.of_nat (seq 0 n).
 
@@ -198,3 +204,7 @@ Definition from_triplets (l : list triplet) (r c : Z) : Z :=
 (* the shared container after the logged critical sections have run in log order (oldest last) *)
 Definition apply_log (lg : list (nat * list triplet)) : list triplet :=
   List.concat (map snd (rev lg)).
+
+(* substring test on region names *)
+Fixpoint contains (s t : string) : bool :=
+  String.prefix s t || match t with EmptyString => false | String _ t' => contains s t' end.
